@@ -73,9 +73,9 @@ func LoadModule(dir, goarch string, overlay map[string][]byte) (*Module, error) 
 	}
 	fset := token.NewFileSet()
 	cfg := &packages.Config{
-		Mode:  packages.LoadAllSyntax,
-		Dir:   abs,
-		Env:   loaderEnv(goarch),
+		Mode:    packages.LoadAllSyntax,
+		Dir:     abs,
+		Env:     loaderEnv(goarch),
 		Fset:    fset,
 		Tests:   false,
 		Overlay: overlay,
